@@ -648,6 +648,7 @@ static void DecodeCMP(Word Index) {
     UNUSED(Index);
 
     if (ChkArgCnt(1, 2)) {
+        OpSize = 0;
         DecodeAdr(&ArgStr[1], MModAcc | MModDir | MModIIX | MModIEP | MModReg);
         switch (AdrMode) {
         case ModAcc:
